@@ -19,6 +19,8 @@ RULES = {
     'C02.b': 'a literal version is stored only for a key that was absent, or is the in-conflict marker',
     'C02.c': 'strategy None returns the store\'s VersionError unchanged and without any effect; the absent-key '
              'branch of the store has no refusing exit',
+    'C02.e': 'get-safe reports the version the store compares against: the reader that builds Response::Value takes the version from '
+             'the map entry whenever the lookup finds one (tombstones included); a literal version is used only where the lookup found nothing',
     'C02.d': 'a success reply of the store / the increment is built only on paths that passed an insert into Database.map '
              '(an acknowledged write is a committed write with a new version)',
 }
@@ -261,6 +263,84 @@ def success_implies_write(ck, m):
               'every success reply of %s is preceded by an insert into Database.map' % short(b.id) if ins and succ and not bad else
               '%s can answer success (%s) on a path that writes nothing: the key keeps its version, so a second writer presenting the '
               'same base version succeeds too' % (short(b.id), bad), '%s:%s' % (b.file, b.line))
+    # ---- C02.e -------------------------------------------------------------------------
+    ng = 0
+    for b in m.prog.user_bodies():
+        if b.kind not in ('fn', 'method') or b.locals[0] != 'nundb::bo::Response' or not node_body(b):
+            continue
+        lookups = [bi for bi, t in b.calls() if t['f'].get('dargs', '').startswith('std::collections::HashMap::<std::string::String, nundb::bo::Value>::get')
+                   and not callee_decl(t).endswith('get_mut')]
+        if not lookups:
+            continue
+        vals = []
+        for bi2, bl in enumerate(b.blocks):
+            for s in bl['s']:
+                if s['k'] == 'assign' and s['r']['k'] == 'agg' and s['r'].get('adt', '').endswith('bo::Response') and s['r'].get('variant') == 'Value' \
+                        and 'version' in s['r'].get('fields', []):
+                    vals.append((bi2, s['r']['ops'][s['r']['fields'].index('version')]))
+        if not vals:
+            continue
+        ng += 1
+        # blocks where an integer literal enters the value that becomes the reported version
+        lit_blocks = _literal_entry_blocks(b, vals[0][1])
+        bad = []
+        for lb_ in lookups:
+            for (sbi, tm, els, adt) in enum_switches(b, lb_):
+                some_t = tm.get('1')
+                if some_t is None:
+                    continue
+                after_some = b.reach_from([some_t], include_start=True)
+                bad += [b.loc(x) for x in lit_blocks if x in after_some]
+        ck.ob('C02.e', short(b.id), 'reported-version-is-the-stored-one', not bad and bool(lit_blocks) or (not bad and not lit_blocks), 
+              'the literal version is reported only where the lookup found no entry' if not bad else
+              '%s reports a literal version (%s) on a path where the map HAS an entry for the key: the store compares a set-safe with the '
+              'entry\'s version (a tombstone keeps old+1), so a client that follows get-safe with set-safe is refused on every retry'
+              % (short(b.id), bad), '%s:%s' % (b.file, b.line))
+    ck.floor('C02.e', ng, 1, 'readers that build Response::Value from a map lookup')
+
+
+def node_body(b):
+    return not b.id.startswith(('nundb::client::', 'nundb::command_line::', '<nundb::client::'))
+
+
+def _literal_entry_blocks(b, operand):
+    """blocks where an integer constant is assigned into the def-use chain that ends in `operand`"""
+    out = set()
+    seen = set()
+
+    def op(o, blk):
+        if 'k' in o:
+            c = o['k']
+            if isinstance(c.get('v'), int) and not isinstance(c.get('v'), bool) and str(c.get('ty', '')).startswith(('i', 'u')):
+                out.add(blk)
+            return
+        p = o.get('c') or o.get('m')
+        if p:
+            local(p['l'], [e for e in p.get('p', ()) if e[0] == 'f'])
+
+    def local(l, path):
+        if (l, tuple(map(tuple, path))) in seen:
+            return
+        seen.add((l, tuple(map(tuple, path))))
+        for (bi, si, kind, pl) in b.defs().get(l, []):
+            if kind != 'assign':
+                continue
+            k = pl['k']
+            if k in ('use', 'cast'):
+                op(pl['o'], bi)
+            elif k == 'agg':
+                ops = pl['ops']
+                if path and path[0][1] < len(ops) and pl.get('ak') in ('tuple',):
+                    op(ops[path[0][1]], bi)
+                else:
+                    for o in ops:
+                        op(o, bi)
+    o0 = operand.get('c') or operand.get('m')
+    if o0:
+        local(o0['l'], [e for e in o0.get('p', ()) if e[0] == 'f'])
+    elif 'k' in operand:
+        pass
+    return out
 
 
 def literal_ok(m, root, site_bis, lit):
